@@ -261,16 +261,27 @@ func (c *Conn) Close() error {
 	// No more data can arrive: wake up pending reads however Close ends.
 	defer c.closeReadReady()
 
-	// Flush any remaining data to be written.
+	// Flush any remaining data to be written. If that fails (for instance with
+	// the sticky error of a packet that the peer refused earlier) the error is
+	// reported, but the peer is told that the stream has ended all the same:
+	// otherwise its reader waits for an end-of-file that never comes.
 	err := c.Flush()
 	if err != nil {
+		/* #nosec */
+		c.sendClose()
 		return err
 	}
 	err = c.closeFlushFunc()
 	if err != nil {
+		/* #nosec */
+		c.sendClose()
 		return err
 	}
+	return c.sendClose()
+}
 
+// sendClose tells the peer that the stream is closed and waits for its answer.
+func (c *Conn) sendClose() error {
 	ctx := context.Background()
 	if !c.stanzaWriter.writeDeadline.IsZero() {
 		var cancel context.CancelFunc
